@@ -954,7 +954,16 @@ def load_corpus():
     if not os.path.exists(path):
         return [], []
     j = json.load(open(path))
-    return j.get("cases", []), j.get("laws", [])
+
+    def usable(x):       # entries that name a variable-offset zone this host cannot build are skipped
+        if isinstance(x, dict):
+            if x.get("kind") == "zone" and x.get("zone") not in ZONES:
+                return False
+            return all(usable(v) for v in x.values())
+        if isinstance(x, list):
+            return all(usable(v) for v in x)
+        return True
+    return [c for c in j.get("cases", []) if usable(c)], [l for l in j.get("laws", []) if usable(l)]
 
 
 _seen_fail = {}
